@@ -28,10 +28,10 @@ func TestVerifSharedLogsBounded(t *testing.T) {
 	twoLogs, nodeHonourAddr = true, true
 	defer func() { twoLogs, nodeHonourAddr = false, false }()
 	ts := newNode(t)
-	mk := func(addr string, extra string) dig.Integration {
+	mk := func(addr string, extra ...string) dig.Integration {
 		tbl := wpg.Table{Name: "t"}
 		var bd []dig.BlockData
-		for _, f := range []string{"log_addr", "block_num", "tx_idx", "log_idx", extra} {
+		for _, f := range append([]string{"log_addr", "block_num", "tx_idx", "log_idx"}, extra...) {
 			tbl.Columns = append(tbl.Columns, wpg.Column{Name: "c_" + f, Type: "text"})
 			b := dig.BlockData{Name: f, Column: "c_" + f}
 			if f == "log_addr" && addr != "" {
@@ -77,9 +77,12 @@ func TestVerifSharedLogsBounded(t *testing.T) {
 	cases, fails := 0, 0
 	for _, extra := range []string{"block_time", "tx_input"} { // headers + logs, blocks + logs
 		// R: unrestricted, and its logs come with the receipts (tx_status is a receipt field)
-		igs := map[string]dig.Integration{"A": mk(token0, extra), "B": mk(token1, extra), "U": mk("", extra), "R": mk("", "tx_status")}
+		igs := map[string]dig.Integration{"A": mk(token0, extra), "B": mk(token1, extra), "U": mk("", extra), "R": mk("", extra, "tx_status")}
 		// what each gets from a client of its own, and what the node's data say it should get
 		alone := map[string]string{}
+		if f := igs["R"].Filter(); !f.UseReceipts || !(f.UseHeaders || f.UseBlocks) {
+			t.Fatalf("the receipts reader does not share cached blocks: plan %s", f.String())
+		}
 		for name, ig := range igs {
 			r, err := rowsOf(jrpc2.New(ts.URL), ig)
 			if err != nil {
